@@ -281,6 +281,60 @@ def deferred_check(case):
     return Res(v, o=(f2 > f1,), tr=1)
 
 
+# ------------------------------------------------------------------ one reader object over a history of file states
+SIZES = ((20, 3), (20, 0), (7, 1), (26, 3), (41, 0), (5, 1))
+
+
+def reopen_cases(tier, seed):
+    return [(nc, a, b, c, online, first_open) for nc in (2, 5) for a in range(len(SIZES)) for b in range(len(SIZES)) for c in range(len(SIZES))
+            for online in (0, 1) for first_open in (0, 1)]
+
+
+def reopen_check(case):
+    """the writer goes on (or a shorter copy replaces the file) between uses of ONE reader object: every open() exposes the frames present then"""
+    nc, a, b, c, online, first_open = case
+    frame = nc * 2
+    d = synth.proc_scratch()
+    stem = "reo_g0_t0.imec0.ap"
+    fbin = os.path.join(d, stem + ".bin")
+    sizes = [SIZES[a], SIZES[b], SIZES[c]]
+    nbs = [f * frame + x for f, x in sizes]
+    raw = ((np.arange(max(nbs), dtype=np.int64) * 37 + 11) % 251).astype(np.uint8)
+    raw[:nbs[0]].tofile(fbin)
+    fs = FS[1]
+    with open(os.path.join(d, stem + ".meta"), "w") as f:
+        f.write(synth.meta_text(synth.meta_items("NP2.1", _sites(nc - 1), sizes[0][0], fs=fs)))
+    cls = spikeglx.OnlineReader if online else spikeglx.Reader
+    v = []
+    step = 0
+    try:
+        sr = cls(fbin, open=bool(first_open), sort=False, ignore_warnings=True)
+        for step in (0, 1, 2):
+            if step > 0 or not first_open:
+                if step > 0:
+                    sr.close()
+                    raw[:nbs[step]].tofile(fbin)
+                sr.open()
+            nf = sizes[step][0]
+            tag = "%s:%s" % ("online" if online else "offline", "first-open" if step == 0 else "reopen")
+            ctx = "one %s object over the file states %r (frames, trailing bytes), at state %d" % (cls.__name__, sizes, step)
+            if sr.ns != nf or tuple(sr.shape) != (nf, nc):
+                v.append(("reopen:ns:%s" % tag, "%s: ns=%r shape=%r but %d complete frames are present" % (ctx, sr.ns, tuple(sr.shape), nf)))
+                break
+            if abs(sr.rl - nf / fs) > 1e-9:
+                v.append(("reopen:duration:%s" % tag, "%s: rl=%r but ns/fs=%r" % (ctx, sr.rl, nf / fs)))
+            ref = np.frombuffer(raw[:nf * frame].tobytes(), dtype=np.int16).reshape(nf, nc)
+            got = sr[:, :]
+            if got.shape != ref.shape or not np.array_equal(got[:, -1], ref[:, -1].astype(np.float32)) or sr[nf - 1].shape != (nc,):
+                v.append(("reopen:read:%s" % tag, "%s: a full read has shape %r / other values than the %d frames of the file" % (ctx, got.shape, nf)))
+                break
+        sr.close()
+    except Exception as e:
+        v.append(("reopen:exc:%s:%s" % ("online" if online else "offline", type(e).__name__),
+                  "one %s object over the file states %r, at state %d: %s: %s" % (cls.__name__, sizes, step, type(e).__name__, e)))
+    return Res(v, o=(online, first_open, sizes[1][0] > sizes[0][0], sizes[2][0] > sizes[1][0]), tr=3)
+
+
 CHECK = {
     "property": "C11",
     "rule": "one case per (channel count, file length in bytes, metadata claim, sampling rate, reader class); "
@@ -295,6 +349,8 @@ CHECK = {
         Clause("truncation", "every file length x meta claim x fs x reader", cases=trunc_cases, check=trunc_check),
         Clause("cbin-mismatch", "compressed stream with another sample count than the metadata", cases=cbin_cases, check=cbin_check),
         Clause("deferred-open", "reader constructed with open=False, file changes, then opened", cases=deferred_cases, check=deferred_check),
+        Clause("reopen", "one reader object (offline / online, opened at construction or later) closed and re-opened over every 3-step history of file sizes",
+               cases=reopen_cases, check=reopen_check),
         Clause("sample-formats", "float32 / int16 / int32 files: frame = channels x bytes per sample", cases=dtype_cases, check=dtype_check),
     ],
 }
